@@ -851,6 +851,10 @@ class SoftwareSwitchBase (object):
 
   def _action_output (self, action, packet, in_port):
     self._output_packet(packet, action.port, in_port, action.max_len)
+    if action.port == OFPP_CONTROLLER:
+      # The packet object may sit in a buffer now.  Whatever the rest of
+      # the action list does to the packet, it does to a copy.
+      return ethernet(packet.pack())
     return packet
   def _action_set_vlan_vid (self, action, packet, in_port):
     if not isinstance(packet.payload, vlan):
